@@ -408,6 +408,13 @@ size_t varintAdaptiveEncodeWith(uint8_t *dst, const uint64_t *values,
     }
 
     /* Fill metadata if requested */
+    /* The dictionary and PFOR encoders report failure (out of memory) as 0 */
+    if (encodedSize == 0 && count > 0 &&
+        (encodingType == VARINT_ADAPTIVE_DICT ||
+         encodingType == VARINT_ADAPTIVE_PFOR)) {
+        return 0;
+    }
+
     if (meta) {
         meta->encodingType = encodingType;
         meta->originalCount = count;
